@@ -148,6 +148,27 @@ theorem stops_pos_after_teardown (cfg : Cfg) (s s' : St α) (h : s.tpc = .td2) (
   subst hs
   simp only [St.stop]; split <;> simp
 
+/-- the deferred release (`defer stop()` / `defer closeChan()` before `subscriptions.Unsubscribe()`):
+    once an external teardown has started, its thread needs exactly two steps, both always enabled,
+    and then the channel is closed (exactly once) — for every configuration, in particular when
+    the source's own teardown panics inside `subscriptions.Unsubscribe()`; in that case the panic
+    is what the caller of `Unsubscribe()` gets afterwards (`raised`), not a channel left open -/
+theorem teardown_releases {cfg : Cfg} {src₀ : List (Notif α)} {s : St α} (h : Inv cfg src₀ s) (ht : s.tpc = .td1) :
+    ∃ s1 s2, step cfg s .ctl = some s1 ∧ step cfg s1 .ctl = some s2 ∧ s2.tpc = .done ∧
+      s2.closed = true ∧ s2.closes = 1 ∧
+      (cfg.upPanic = true → cfg.hot = true → s.upOpen = true → s2.raised = true) := by
+  have e1 : step cfg s .ctl = some { s.unsubUp cfg with tpc := .td2 } := by simp [step, stepCtl, ht]
+  have e2 : step cfg { s.unsubUp cfg with tpc := .td2 } .ctl = some { ({ s.unsubUp cfg with tpc := .td2 } : St α).stop with tpc := .done } := by
+    simp [step, stepCtl]
+  refine ⟨_, _, e1, e2, rfl, ?_⟩
+  have hi := inv_step (inv_step h .ctl e1) .ctl e2
+  have hs := stops_pos_after_teardown cfg _ _ rfl e2
+  have hc := closes_eq_one_of_stops hi hs.1
+  refine ⟨hc.2, hc.1, ?_⟩
+  intro hp hh hu
+  simp [St.stop, St.unsubUp, hp, hh, hu]
+  split <;> simp_all
+
 /-! ### completeness: when both ends have nothing left to do, everything arrived -/
 
 theorem pipe_complete {cfg : Cfg} {src₀ : List (Notif α)} {s : St α} (h : Inv cfg src₀ s)
